@@ -44,9 +44,11 @@ class Wal:
 
     def eval(self, sexpr, **args):
         '''Evaluate the WAL expression sexpr and run passes'''
-        # put passed arguments into context
+        # put passed arguments into context, remember the variables they shadow
+        shadowed = {}
         for name, val in args.items():
             if self.eval_context.global_environment.is_defined(name):
+                shadowed[name] = self.eval_context.global_environment.read(name)
                 self.eval_context.global_environment.write(name, val)
             else:
                 self.eval_context.global_environment.define(name, val)
@@ -62,9 +64,12 @@ class Wal:
                 self.eval_context.print_error(sexpr, error)
                 raise WalEvalError()
 
-        # remove passed arguments from context
-        for name, val in args.items():
-            self.eval_context.global_environment.undefine(name)
+        # remove passed arguments from context and restore shadowed variables
+        for name in args:
+            if name in shadowed:
+                self.eval_context.global_environment.write(name, shadowed[name])
+            else:
+                self.eval_context.global_environment.undefine(name)
 
         return res
 
